@@ -43,14 +43,14 @@ def jobs(tier, seed, pool):
         r = Rng(seed, PROP, n)
         ntypes = 40
         if tier == 'quick':
-            singles = r.sample(range(ntypes), 6)
+            singles = r.sample(range(ntypes), 12)
         else:
             singles = list(range(ntypes))
         for ti in singles:
             add({'sample': n}, [ti], same_len=r.chance(0.5), raw=r.chance(0.5), queries=r.chance(0.3))
         add({'sample': n}, [], all_=True, raw=True)
         add({'sample': n}, [], all_=True, raw=False, same_len=False)
-        for _ in range(8 if tier == 'quick' else 200):
+        for _ in range(20 if tier == 'quick' else 200):
             k = r.range(2, 6)
             add({'sample': n}, [r.below(1000) for _ in range(k)], same_len=r.chance(0.5), raw=r.chance(0.5), queries=r.chance(0.3))
     nseeds = 1 if tier == 'quick' else 6
